@@ -85,6 +85,7 @@ type Dev struct {
 	Dup       bool `json:"dup"`
 	Premature bool `json:"premature"` // timer fires while messages are in flight (safety mode)
 	Tick      bool `json:"tick"`      // timed mode: a second passes while messages are in flight (never across an armed deadline)
+	SlowReset bool `json:"slow_reset"` // timed mode: a timer may fire while another node's Reset is still pending
 	Hold      bool `json:"hold"`      // postpone one in-flight message until nothing else is deliverable
 	Stale     bool `json:"stale"`
 	Perm      bool `json:"perm"`
@@ -532,7 +533,9 @@ func (w *World) enabled() []Event {
 			have = true
 		}
 	}
+	resetPending := have
 	// 2. transaction supplies
+	txOffered := false
 	for _, n := range w.nodes {
 		if !n.live() || n.d == nil {
 			continue
@@ -549,6 +552,7 @@ func (w *World) enabled() []Event {
 		for _, h := range hs {
 			add(Event{K: "tx", N: n.id, P: h}, !have)
 			have = true
+			txOffered = true
 			if !sc.Dev.TxOrder {
 				break
 			}
@@ -590,6 +594,7 @@ func (w *World) enabled() []Event {
 		}
 	}
 	quiescent := !have
+	onlyResets := resetPending && len(w.net) == 0 && !txOffered
 	// 4. ledger sync of lagging nodes
 	if sc.Dev.Sync || sc.SyncDefault {
 		for _, n := range w.nodes {
@@ -620,6 +625,24 @@ func (w *World) enabled() []Event {
 		}
 	}
 	if sc.Timed {
+		if sc.Dev.SlowReset && onlyResets && !w.slowResetUsed() {
+			// an application that is a little slow: the proposal timer of the next primary may fire while one other
+			// node's Reset is still pending (the next-height traffic then reaches that node early and is cached);
+			// no other timer may pass before the Reset, otherwise the node would count as silent, not as slow
+			for _, n := range w.nodes {
+				if n.live() && !n.pendingReset && n.wantsTimer() && n.ctx().IsPrimary() && !n.ctx().RequestSentOrReceived() {
+					late := false
+					for _, o := range w.nodes {
+						if o.live() && o.id != n.id && !o.pendingReset && o.wantsTimer() && o.t.deadline().Before(n.t.deadline()) {
+							late = true
+						}
+					}
+					if !late {
+						alt(Event{K: "timeout", N: n.id})
+					}
+				}
+			}
+		}
 		if quiescent && !have {
 			// advance to the earliest deadline; all nodes sharing it may fire in any order
 			var best time.Time
@@ -782,6 +805,17 @@ func (w *World) views() []int {
 		}
 	}
 	return r
+}
+
+// slowResetUsed: at most one node may lag with its Reset at a time (the others must have re-initialised).
+func (w *World) slowResetUsed() bool {
+	pend := 0
+	for _, n := range w.nodes {
+		if n.live() && n.pendingReset {
+			pend++
+		}
+	}
+	return pend != 1
 }
 
 // live: the node has a running library instance.
